@@ -124,6 +124,9 @@ func check(id, tier, repo, verif string, noposex bool) (code int) {
 		run.Note("functions that do not exist in the reviewed tree were inlined into their callers in the analysed SSA form: %s", strings.Join(prog.InlinedHelpers, ", "))
 		fmt.Printf("note: new helpers inlined at their call sites: %s\n", strings.Join(prog.InlinedHelpers, ", "))
 	}
+	if prog.InlineFailure != "" {
+		run.Note("inlining of new helpers was abandoned (%s); the program was analysed as built", prog.InlineFailure)
+	}
 	run.Stats["module_packages"] = len(prog.Pkgs)
 	run.Stats["module_functions"] = len(prog.ModuleFuncs())
 	spec.Run(run)
